@@ -358,6 +358,21 @@ fn inferred_functions(thorough: bool) -> Vec<Case> {
         out.push(cp("inferred exponent boundary", format!("struct Sq {{ fa: Length^({e}) }}\nSq {{ fa: (2 m)^({e}) }}"), &[]));
         out.push(cp("inferred exponent boundary", format!("[(2 m)^({e})]"), &[]));
     }
+    // every prefix, long and short spelling, on three units (the printer's prefix names must be the
+    // reader's)
+    for (long, shorts, kind, _) in numbat::verif::prefix_table() {
+        for (unit_long, unit_short) in [("metre", "m"), ("gram", "g"), ("bit", "bit"), ("byte", "B")] {
+            if kind == 'B' && unit_long != "bit" && unit_long != "byte" {
+                continue;
+            }
+            out.push(cp("prefixed unit", format!("3 {long}{unit_long}"), &[]));
+            out.push(cp("prefixed unit", format!("let pq = 7 {long}{unit_long} / (2 {long}{unit_long})\npq"), &[]));
+            for sh in &shorts {
+                out.push(cp("prefixed unit", format!("3 {sh}{unit_short}"), &[]));
+                out.push(cp("prefixed unit", format!("unit uq = 2 {sh}{unit_short}"), &["3 uq".into()]));
+            }
+        }
+    }
     // bodies of other kinds
     for (decl, probes) in [
         ("fn fni_a(x) = x", vec!["fni_a(2 m)", "fni_a(\"a\")", "fni_a([1])", "fni_a(true)"]),
@@ -1005,7 +1020,7 @@ pub fn check(rep: &mut Report) {
     }
     rep.set("statements", json!(n));
     rep.set("per_family_generated_and_round_tripped", json!(per_family.iter().map(|(k, v)| (k.to_string(), json!([v.0, v.1]))).collect::<serde_json::Map<_, _>>()));
-    rep.rule = "statements enumerated per family: fully parenthesised operator nestings of depth <= 2 over {2, 0.1, x2, m} (thorough: + s, 3) x {+ - * / ^ per -> juxtaposition, unary -, !, ², call} (thorough: + every depth-3 chain), boolean/comparison nestings, conditionals in every operand position and as receiver of field access / call / conversion, type and dimension expressions of depth <= 2 with exponents {2,3,-1,1/3,-2/3,2/3,12,15,0} in every annotation position, inferred signatures with exponent denominators up to 15, where clauses, every decorator form x unit form, strings over an escape/interpolation/format-specifier alphabet (all pairs), temperature sugar in every operand position, date arithmetic, number spellings, procedure calls, the C02 program space and the C09 expression space; non-trivial = accepted statements whose echo was re-interpreted and compared (type, bit-exact value, printed output, second echo, probes of the defined names)".into();
+    rep.rule = "statements enumerated per family: fully parenthesised operator nestings of depth <= 2 over {2, 0.1, x2, m} (thorough: + s, 3) x {+ - * / ^ per -> juxtaposition, unary -, !, ², call} (thorough: + every depth-3 chain), boolean/comparison nestings, conditionals in every operand position and as receiver of field access / call / conversion, type and dimension expressions of depth <= 2 with exponents {2,3,-1,1/3,-2/3,2/3,12,15,0} in every annotation position, inferred signatures with exponent denominators up to 15, every prefix (long and short) on four units, where clauses, every decorator form x unit form, strings over an escape/interpolation/format-specifier alphabet (all pairs), temperature sugar in every operand position, date arithmetic, number spellings, procedure calls, the C02 program space and the C09 expression space; non-trivial = accepted statements whose echo was re-interpreted and compared (type, bit-exact value, printed output, second echo, probes of the defined names)".into();
     rep.assumptions = vec![
         "the echo is the plain text of Statement::pretty_print as returned by Context::interpret_with_settings; input and echo are interpreted in two clones of the same pre-state".into(),
         "number literals are restricted to values that print exactly in 6 significant digits (the property's proviso); values are compared bit-exactly".into(),
